@@ -45,12 +45,34 @@ def _relist_action_maps(cfg: Dict, order: str, rng) -> int:
     return moved
 
 
+def _stepped_action_check(env, a: int) -> Dict[str, Any]:
+    """Read the mask as a user does, take `env.step(a)`, and compare the bit of `a` with the response recorded for it. Only steps in
+    which every OTHER agent did nothing are judged (another agent acting earlier in the same tick may legitimately change the
+    state between the mask and the action)."""
+    bit = bool(list(env.action_masks())[a])
+    with rig.ValidatorSpy() as spy:
+        env.step(a)
+    item = env.agent.history[-1]
+    st = getattr(item.response, "status", None)
+    reason = (getattr(item.response, "data", {}) or {}).get("reason")
+    others_idle = all(ag.history[-1].action == "do-nothing" for nm, ag in env.game.agents.items() if ag is not env.agent and ag.history)
+    by_rule = st == "failure" and reason is not None and reason in spy.false_messages
+    out = {"bit": int(bit), "status": st, "reason": reason, "violation": None,
+           "class": ("allowed" if bit else "masked") + ":" + str(st) + ("" if others_idle else ":others-acted")}
+    if others_idle:
+        if bit and (by_rule or st == "unreachable"):
+            out["violation"] = "allowed-action-refused-by-rule-in-step"
+        elif not bit and st == "success":
+            out["violation"] = "masked-out-action-succeeded-in-step"
+    return out
+
+
 def env_level(ctx: Ctx):
     """Every action-map entry at every step: mask bit == would reach a handler (checked with stubbed handlers)."""
     rng = ctx.rng.fork("mask-env")
     shipped = scen.shipped()
     names = [n for n in MASK_SCEN if n in shipped][: ctx.scale(2, 3)]
-    total = agree = executed = 0
+    total = agree = executed = stepped = 0
     for name, order in [(n, o) for n in names for o in (("as-listed", "shuffled") if not ctx.thorough else ("as-listed", "shuffled", "reversed"))]:
         try:
             cfg = scen.load_cfg(shipped[name])
@@ -130,18 +152,72 @@ def env_level(ctx: Ctx):
                                       {"mode": "mask-exec", "scenario": base_name, "key_order": key_order, "seed": ep_seed,
                                        "actions": list(taken[:-1]), "episode": ep, "step": step, "action_index": i, "req": req})
                 a = rng.choice(trans) if trans and rng.chance(1, 2) else rng.below(n_actions)
-                env.step(a)
+                # stepped-action oracle: the mask the USER holds (read before the step) against what `env.step(a)` does with
+                # action a — "executing it now" includes whatever the step does before the agent acts (pre_timestep)
+                v = _stepped_action_check(env, int(a))
+                stepped += 1
+                ctx.count("stepped:" + v["class"])
+                if v["violation"]:
+                    ident, opts = amap[int(a)]
+                    ctx.violation({"kind": v["violation"], "action": ident, "status": v["status"]},
+                                  f"{name} ep{ep} step{step}: env.step({int(a)}) = {ident} {opts}: mask bit read before the step = {v['bit']}, "
+                                  f"answer {v['status']} {v['reason']!r}",
+                                  {"mode": "mask-step", "scenario": base_name, "key_order": key_order, "seed": ep_seed,
+                                   "actions": list(taken), "episode": ep, "step": step, "action_index": int(a)})
                 taken.append(int(a))
+        # countdown-boundary family: a trigger (restart / shutdown / startup / reset) followed, after k idle steps for every k around
+        # the configured durations, by an action on the same component — the step in which a countdown runs out is where the mask a
+        # user holds and what the step does can come apart
+        if order == "as-listed":
+            idle = next((i for i, (ident, _) in amap.items() if ident == "do-nothing"), None)
+            trig = [i for i, (ident, o) in amap.items() if ident in ("node-service-restart", "node-shutdown", "node-startup", "node-reset")]
+            pairs = []
+            for t in trig:
+                tid, to = amap[t]
+                for f, (fid, fo) in amap.items():
+                    if f != t and fo.get("node_name") == to.get("node_name") and to.get("node_name") is not None \
+                            and (to.get("service_name") is None or fo.get("service_name") == to.get("service_name")):
+                        pairs.append((t, f))
+            chosen = []
+            for kind in ("node-service-restart", "node-shutdown", "node-startup", "node-reset"):   # every trigger kind gets its turn
+                # restarts: every follow-up of up to two services (the countdown of a service is the one the step itself completes)
+                chosen += rng.shuffle([pf for pf in pairs if amap[pf[0]][0] == kind])[: (ctx.scale(10, 30) if kind == "node-service-restart" else ctx.scale(2, 6))]
+            for t, f in (chosen if idle is not None else []):
+                for k in range(0, ctx.scale(8, 10)):
+                    plan = [t] + [idle] * k
+                    if amap[t][0] == "node-startup":   # the node has to be off first
+                        sd = next((i for i, (ident, o) in amap.items() if ident == "node-shutdown" and o.get("node_name") == amap[t][1].get("node_name")), None)
+                        if sd is None:
+                            break
+                        plan = [sd] + [idle] * 4 + plan
+                    for attempt in range(3):   # a step in which another agent acted is not judged: try another seed
+                        ep_seed = rng.below(10 ** 6)
+                        env.reset(seed=ep_seed)
+                        for a in plan:
+                            env.step(a)
+                        v = _stepped_action_check(env, int(f))
+                        if not v["class"].endswith("others-acted"):
+                            break
+                    stepped += 1
+                    ctx.count("boundary:" + amap[t][0] + ":" + v["class"])
+                    ctx.case({"sc": name, "boundary": [t, f, k]}, not v["bit"])
+                    if v["violation"]:
+                        ctx.violation({"kind": v["violation"], "action": amap[f][0], "status": v["status"], "after": amap[t][0]},
+                                      f"{name}: {amap[t][0]} {amap[t][1]}, {k} idle steps, then env.step({f}) = {amap[f][0]} {amap[f][1]}: mask bit "
+                                      f"read before the step = {v['bit']}, answer {v['status']} {v['reason']!r}",
+                                      {"mode": "mask-step", "scenario": base_name, "key_order": key_order, "seed": ep_seed,
+                                       "actions": [int(x) for x in plan], "episode": -1, "step": len(plan), "action_index": int(f)})
         env.close()
     ctx.cov["mask_entries_compared"] = total
     ctx.cov["actions_really_executed_against_their_mask_bit"] = executed
+    ctx.cov["actions_stepped_against_the_mask_read_before_the_step"] = stepped
     ctx.oblige("rig:mask bit == reaches handler, every action-map entry at every step", "correspondence", agree == total,
                f"{total - agree} of {total} entries disagree")
 
 
 def replay(rec: dict) -> bool:
     rp = rec["replay"]
-    if rp.get("mode") not in ("mask-env", "mask-exec"):
+    if rp.get("mode") not in ("mask-env", "mask-exec", "mask-step"):
         return c05.replay(rec)
     # rebuild the environment with the recorded listing order of every action map, re-seed, re-take the recorded actions, and
     # compare the mask bit of the recorded entry with what __call__ does (stubbed handlers) at that state
@@ -162,6 +238,10 @@ def replay(rec: dict) -> bool:
             env.step(a)
     sim = env.game.simulation
     i = rp["action_index"]
+    if rp["mode"] == "mask-step":
+        v = _stepped_action_check(env, i)
+        env.close()
+        return v["violation"] is None
     bit = bool(list(env.action_masks())[i])
     ident, opts = env.agent.action_manager.action_map[i]
     req = env.agent.action_manager.form_request(ident, opts)
